@@ -53,6 +53,10 @@ pub struct Case {
     pub version_b: u32,
     pub retention: u16,
     pub after: Vec<VOp>,
+    /// a read-only clone of the stored vector is still alive when a forced import meets a mismatch: the import
+    /// cannot remove the referenced data region, so it must either succeed or leave everything as it was
+    #[serde(default)]
+    pub hold_clone: bool,
 }
 
 fn disk(f: Fmt) -> Fmt {
@@ -111,6 +115,7 @@ struct Stage1<T: Elem> {
     seq: u64,
     /// plain import under the creating format/version: Ok(()) when it returns exactly `model`
     reopen_a: Box<dyn Fn(&Database, &VModel<T>) -> Result<(), String>>,
+    held: Option<vecdb::ReadableBoxedVec<usize, T>>,
 }
 
 fn mk_sut<V: VecKind>(dir: Scratch, db: Database, vec: V, cfg: VecCfg, version: u32, model: VModel<V::T>, seq: u64) -> Sut<V>
@@ -162,6 +167,11 @@ where
     if sut.model.items.is_empty() {
         obs.label("stored:empty");
     }
+    let mismatch = disk(case.fmt_a) != disk(case.fmt_b) || case.version_a != case.version_b;
+    let held = (case.hold_clone && mismatch && case.entry_b.forced() && case.damage == Damage::None).then(|| {
+        use vecdb::ReadableCloneableVec;
+        sut.v().read_only_boxed_clone()
+    });
     drop(sut.vec.take());
     let Sut { dir, db, model, seq, .. } = sut;
     let (va, cfg_a) = (case.version_a, cfg);
@@ -173,7 +183,7 @@ where
         let s = mk_sut::<A>(tmp, view_db, v, cfg_a, va, clone_model(model), 0);
         s.observe()
     });
-    Ok(Stage1 { dir, db, model, seq, reopen_a })
+    Ok(Stage1 { dir, db, model, seq, reopen_a, held })
 }
 
 fn clone_model<T: Elem>(m: &VModel<T>) -> VModel<T> {
@@ -188,7 +198,7 @@ fn stage2<B: VecKind>(s1: Stage1<B::T>, case: &Case, obs: &mut Obs) -> Result<()
 where
     B::T: Elem,
 {
-    let Stage1 { dir, db, model, seq, reopen_a } = s1;
+    let Stage1 { dir, db, model, seq, reopen_a, held } = s1;
     // optional damage to the stored header, through rawdb
     if case.damage != Damage::None {
         let region = db.get_region("v/usize").ok_or("the vector's region 'v/usize' does not exist")?;
@@ -295,7 +305,26 @@ where
     }
     // forced import on a mismatch (or unreadable header)
     let v = match got {
-        Ok(v) => v,
+        Ok(v) => {
+            drop(held);
+            v
+        }
+        Err(e) if held.is_some() => {
+            // refused because the data region is still referenced: nothing may have been discarded
+            obs.label("mismatch+forced:refused-while-clone-held");
+            if let Some(d) = snap_diff(&before, &snapshot(&db)) {
+                return Err(format!("{tag}: the forced import failed ({e}) while a read-only clone was alive and still modified the database: {d}"));
+            }
+            drop(held);
+            reopen_a(&db, &model).map_err(|e| format!("{tag}: after the refused forced import (clone alive), importing under the creating version/format: {e}"))?;
+            if model.has_holes() {
+                obs.label("mismatch+forced:refused-while-clone-held+holes");
+            }
+            if !model.items.is_empty() {
+                obs.set_nontrivial();
+            }
+            return Ok(());
+        }
         Err(e) => {
             if case.damage == Damage::None {
                 return Err(format!("{tag}: the forced import failed: {e}"));
@@ -384,7 +413,7 @@ impl Prop for P {
                         // most stored vectors hold data
                         ops.insert(0, VOp::PushRun { n: RunLen::Small((pat % 23) as u8), pat });
                         let version_b = if same_version { version_a } else { vb };
-                        Case { ty, fmt_a, entry_a, version_a, ops, damage, fmt_b, entry_b, version_b, retention, after }
+                        Case { ty, fmt_a, entry_a, version_a, ops, damage, fmt_b, entry_b, version_b, retention, after, hold_clone: pat % 5 == 0 }
                     })
             })
             .boxed()
@@ -407,7 +436,7 @@ impl Prop for P {
     }
 
     fn rule() -> String {
-        "a vector of u32 or u64 is created through one of the four entry points (import, import_with, forced_import, forced_import_with) in one of six formats (bytes, zerocopy, pco, lz4, zstd, eager wrapper) under a generated version, filled by a C03-style history (pushes up to several pages, truncations, writes, flushes, re-imports; raw formats: updates, deletions, hole filling, so that a holes region exists; compressed: a page-index region), flushed and dropped; optionally the stored header is damaged through rawdb (unused format byte, other header version, region cut inside the header) or, for raw formats, 1..size-1 stray bytes are appended after the last value. It is then requested through a generated entry point under a generated (format, version), equal to the stored pair in about a third of the cases. Oracle: match => Ok and exactly the stored contents (len, every element, deleted slots, stamp), and the vector keeps working (generated continuation + re-import against the model); mismatch + plain => Err(DifferentVersion | DifferentFormat), every region of the database byte-identical to before, and a plain import under the creating pair still returns everything; mismatch + forced => Ok, an empty vector (no elements, no deleted slots), the continuation matches a fresh model, and the old pair no longer imports; stray bytes after the last value of a raw vector (header intact) under a matching pair => refused with the database untouched, or the stored contents; under another pair as for a mismatch; damaged header => plain import refused with the database untouched, forced import either empty or refused with the database untouched. Non-trivial: a non-empty stored vector met by a mismatch, or by a forced import under a matching pair.".into()
+        "a vector of u32 or u64 is created through one of the four entry points (import, import_with, forced_import, forced_import_with) in one of six formats (bytes, zerocopy, pco, lz4, zstd, eager wrapper) under a generated version, filled by a C03-style history (pushes up to several pages, truncations, writes, flushes, re-imports; raw formats: updates, deletions, hole filling, so that a holes region exists; compressed: a page-index region), flushed and dropped; optionally the stored header is damaged through rawdb (unused format byte, other header version, region cut inside the header) or, for raw formats, 1..size-1 stray bytes are appended after the last value. It is then requested through a generated entry point under a generated (format, version), equal to the stored pair in about a third of the cases. Oracle: match => Ok and exactly the stored contents (len, every element, deleted slots, stamp), and the vector keeps working (generated continuation + re-import against the model); mismatch + plain => Err(DifferentVersion | DifferentFormat), every region of the database byte-identical to before, and a plain import under the creating pair still returns everything; mismatch + forced => Ok, an empty vector (no elements, no deleted slots), the continuation matches a fresh model, and the old pair no longer imports; stray bytes after the last value of a raw vector (header intact) under a matching pair => refused with the database untouched, or the stored contents; under another pair as for a mismatch; in 1 case in 5 a read-only clone of the stored vector is still alive when a forced import meets a mismatch: it then succeeds, or fails with the database untouched and the old pair still importing everything; damaged header => plain import refused with the database untouched, forced import either empty or refused with the database untouched. Non-trivial: a non-empty stored vector met by a mismatch, or by a forced import under a matching pair.".into()
     }
 
     fn mandatory_labels() -> &'static [&'static str] {
@@ -423,6 +452,7 @@ impl Prop for P {
             "stored:damaged-header",
             "torn-tail:match+forced",
             "torn-tail:match+plain",
+            "mismatch+forced:refused-while-clone-held",
             "forced-reset-of-vector-with-holes",
         ]
     }
